@@ -98,7 +98,7 @@ def run_job(job, work, tier, cache_dir, versions):
         cmd += ['--transparent', s]
     for i in job.get('inc', []):
         cmd += ['--inc', i]
-    for s_ in job.get('structs', []):
+    for s_ in job.get('structs', JOBS.DEFAULT_STRUCTS):
         cmd += ['--struct', s_]
     rc, out, err, secs = sh(cmd, timeout=300)
     res['seconds']['extract'] = round(secs, 2)
